@@ -137,7 +137,7 @@ CONTRACTS = [
 
     # ------------------------------------------------------------------ create_plan_for
     Contract(F + "::ExecutionPlanner.create_plan_for", params={"task_id": "TaskIdentifier", "run_again": "bool", "at_least_commit": "Opt[str]"},
-             returns="ExecutionPlan", props=["C02", "C01", "C18"], fresh_result=True,
+             returns="ExecutionPlan", props=["C02", "C01"], fresh_result=True,
              prefer_ext={"TaskIndex.get_task": "TaskIndex.get_task(planner)", "TaskType.should_run": "TaskType.should_run(planner)",
                          "RunExperiment.create_new_version": "RunExperiment.create_new_version(planner)",
                          "TaskType.get_output_path": "TaskType.get_output_path(planner)", "RunExperiment.get_output_path": "TaskType.get_output_path(planner)"},
@@ -227,11 +227,11 @@ CONTRACTS = [
                              C("every_processed_dependency_with_an_output_directory_is_listed",
                                "forall(m, 'int', implies(0 <= m and m < c and OutPath(select(Deps(lid(lt)), m)) is not None,"
                                " 0 <= select(g_pos, m) and select(g_pos, m) < seq_len(dep_output_paths) and select(dep_output_paths, select(g_pos, m))[0] == select(Deps(lid(lt)), m)"
-                               " and select(dep_output_paths, select(g_pos, m))[1] == some(OutPath(select(Deps(lid(lt)), m)))))", "C18"),
+                               " and select(dep_output_paths, select(g_pos, m))[1] == some(OutPath(select(Deps(lid(lt)), m)))))", "C18", "C02"),
                              C("nothing_else_is_listed",
                                "forall(q, 'int', implies(0 <= q and q < seq_len(dep_output_paths), 0 <= select(g_src, q) and select(g_src, q) < c"
                                " and select(dep_output_paths, q)[0] == select(Deps(lid(lt)), select(g_src, q))"
-                               " and OutPath(select(Deps(lid(lt)), select(g_src, q))) is not None and select(dep_output_paths, q)[1] == some(OutPath(select(Deps(lid(lt)), select(g_src, q))))))", "C18"),
+                               " and OutPath(select(Deps(lid(lt)), select(g_src, q))) is not None and select(dep_output_paths, q)[1] == some(OutPath(select(Deps(lid(lt)), select(g_src, q))))))", "C18", "C02"),
                          ]),
                  3: Loop(header="for dep in lt.deps:", index="a",
                          modifies=["list@new_op._exe_deps", "region:depsof"],
@@ -269,16 +269,16 @@ CONTRACTS = [
                  Ghost("dep.g_ph = 0\ndep.g_mine = True", after="dep = LoweringTask.initial(self._ctx.task_index.get_task(dep_ident))"),
                  # C18: what the combine operation is given
                  Ghost("g_pos = const_arr('Arr[int,int]', 0)\ng_src = const_arr('Arr[int,int]', 0)", before="for task_dep_id in lt.task.deps:"),
-                 Ghost("assert task_dep_id == select(Deps(lid(lt)), c) and Reach(task_dep_id) and TaskOf(task_dep_id)._identifier == task_dep_id, 'hint_combine_dependency'",
+                 Ghost("assert task_dep_id == select(Deps(lid(lt)), c) and Reach(task_dep_id) and TaskOf(task_dep_id)._identifier == task_dep_id, 'hint_combine_dependency | props=C18,C02'",
                        before="task = self._ctx.task_index.get_task(task_dep_id)", optional=True),
                  Ghost("g_pos = store(g_pos, c, len(dep_output_paths))\ng_src = store(g_src, len(dep_output_paths), c)",
                        before="dep_output_paths.append((task_dep_id, task_output_path))"),
                  Ghost("assert forall(m, 'int', implies(0 <= m and m < seq_len(Deps(lid(lt))) and OutPath(select(Deps(lid(lt)), m)) is not None,"
                        " 0 <= select(g_pos, m) and select(g_pos, m) < seq_len(dep_output_paths) and select(dep_output_paths, select(g_pos, m))[0] == select(Deps(lid(lt)), m)"
                        " and select(dep_output_paths, select(g_pos, m))[1] == some(OutPath(select(Deps(lid(lt)), m))))),"
-                       " 'combine_is_given_the_output_directory_of_every_dependency_that_has_one'\n"
+                       " 'combine_is_given_the_output_directory_of_every_dependency_that_has_one | props=C18,C02'\n"
                        "assert forall(q, 'int', implies(0 <= q and q < seq_len(dep_output_paths), 0 <= select(g_src, q) and select(g_src, q) < seq_len(Deps(lid(lt)))"
-                       " and select(dep_output_paths, q)[0] == select(Deps(lid(lt)), select(g_src, q)))), 'combine_is_given_nothing_but_its_dependencies'",
+                       " and select(dep_output_paths, q)[0] == select(Deps(lid(lt)), select(g_src, q)))), 'combine_is_given_nothing_but_its_dependencies | props=C18,C02'",
                        before="new_op = CombineOutputs(...", optional=True),
                  Ghost("assert forall(j, 'int', implies(0 <= j and j < seq_len(Deps(lid(lt))), finished(select(Deps(lid(lt)), j)) and"
                        " implies(visited[select(Deps(lid(lt)), j)].g_ph == 2, opof(select(Deps(lid(lt)), j)) in new_op._exe_deps))), 'hint_all_dependencies_hooked'\n"
